@@ -46,7 +46,7 @@ int main() {
   { using Scope = detail::Stack_Holder::Scope; using Entry = Scope::value_type;
     SZ("Scope", Scope) OFF("Scope_data", Scope, data) SZ("Scope_Entry", Entry) OFF("Entry_first", Entry, first) OFF("Entry_second", Entry, second) }
   OFF("DE_mutex", detail::Dispatch_Engine, m_mutex) OFF("DE_state", detail::Dispatch_Engine, m_state) OFF("DE_stack_holder", detail::Dispatch_Engine, m_stack_holder)
-  OFF("DE_conversions", detail::Dispatch_Engine, m_conversions)
+  OFF("DE_conversions", detail::Dispatch_Engine, m_conversions) OFF("DE_parser", detail::Dispatch_Engine, m_parser) OFF("EE_call_stack", exception::eval_error, call_stack)
   OFF("State_functions", detail::Dispatch_Engine::State, m_functions) OFF("State_function_objects", detail::Dispatch_Engine::State, m_function_objects)
   OFF("State_boxed_functions", detail::Dispatch_Engine::State, m_boxed_functions) OFF("State_global_objects", detail::Dispatch_Engine::State, m_global_objects)
   OFF("State_types", detail::Dispatch_Engine::State, m_types) SZ("DE_State", detail::Dispatch_Engine::State)
